@@ -45,6 +45,7 @@ class FsSeam:
         self.tmpmap = {}
         self.written = {}        # relpath -> bytes written through the seam (ground truth of what reached the kernel)
         self.watch = []          # callbacks(op tuple) for probes
+        self._depth = 0
 
     # ---- path handling ---------------------------------------------------
     def in_scope(self, path):
@@ -75,6 +76,8 @@ class FsSeam:
     def op(self, kind, path, size=0, do=None, data=None, raw=None):
         """Count one seam op and apply the fault plan.  ``do()`` performs the
         real operation; for writes ``data``/``raw`` allow a torn prefix."""
+        if self._depth:
+            return do()             # nested call made by the real implementation of an op already counted
         self.n += 1
         k = self.n
         rp = self.rel(path)
@@ -86,11 +89,11 @@ class FsSeam:
             cb(rec)
         f = self.plan.get(k)
         if f is None:
-            return do()
+            return self._guarded(do)
         if f['kind'] == 'crash':
             when = f.get('when', 'before')
             if when == 'after':
-                res = do()
+                res = self._guarded(do)
                 self._die(k, kind, rp, 'after')
             elif when == 'torn' and kind == 'write' and size > 1:
                 cut = max(1, min(size - 1, int(size * float(f.get('frac', 0.5)))))
@@ -115,6 +118,13 @@ class FsSeam:
             e._dfsim_marker = 'io-error@%d' % k
             raise e
         raise AssertionError('unknown fault kind %r' % (f,))
+
+    def _guarded(self, do):
+        self._depth += 1
+        try:
+            return do()
+        finally:
+            self._depth -= 1
 
     def _die(self, k, kind, rp, how):
         self.ctx.fault('crash')
@@ -219,7 +229,7 @@ class FsSeam:
         def sim_makedirs(name, mode=0o777, exist_ok=False):
             # count once per call, and only when something is actually created
             if not seam.in_scope(name) or os.path.isdir(name):
-                return _real['makedirs'](name, mode, exist_ok)
+                return seam._guarded(lambda: _real['makedirs'](name, mode, exist_ok))
             return seam.op('mkdir', name, 0, lambda: _real['makedirs'](name, mode, exist_ok))
 
         def sim_ntf(mode='w+b', buffering=-1, encoding=None, newline=None, suffix=None, prefix=None,
@@ -251,7 +261,7 @@ class FsSeam:
             shutil.COPY_BUFSIZE = self.copy_bufsize
         # temp files live inside the scratch root, with deterministic names
         tmpdir = os.path.join(self.root, 'tmp')
-        _real['makedirs'](tmpdir, exist_ok=True)
+        self._guarded(lambda: _real['makedirs'](tmpdir, exist_ok=True))
         tempfile.tempdir = tmpdir
         tempfile._name_sequence = _DetNames()
         self.installed = True
